@@ -72,17 +72,35 @@ partial def loadS (ids : List V.Ident) (j : Json) : Option SVT :=
 
 def showRej (r : Rej) : String := s!"rej tag={r.tag} msg={r.msg.getD "-"} path-ok"
 
+def hexOf (b : Bytes) : String :=
+  String.join (b.map fun x =>
+    let d (n : Nat) : Char := if n < 10 then Char.ofNat (48 + n) else Char.ofNat (87 + n)
+    String.ofList [d (x / 16), d (x % 16)])
+
+/-- the defaults written on the way to the leaf, nearest first: the leaf's own, then the typedefs from the outermost in -/
+def defaultsOf (j : Json) : List Bytes :=
+  let ofJ (d : Json) : Option Bytes := match d with | .str s => some (bytesOf s) | _ => none
+  ((if jhas j "ldef" then [jobj j "ldef"] else []) ++ (jarr j "wrap").reverse).filterMap ofJ
+
+def showDefault (j : Json) : List String :=
+  if jbool j "defs" then [match (defaultsOf j).head? with | some d => "D=" ++ hexOf d | none => "D=none"] else []
+
 def handle (j : Json) : List (String × Json) :=
   let ids := loadIdents j
   let probes := (jarr j "probes").map fun p => bytesOf (strOf p)
   let m := match loadM ids (jobj j "type") with
     | none => "compile-err"
-    | some t => ";".intercalate (probes.map fun p => match check t p with | none => "ok" | some r => showRej r)
+    | some t =>
+      -- `validateDefault` at every level: each default written has to be a value of the type
+      if (defaultsOf j).any fun d => (check t d).isSome then "compile-err"
+      else ";".intercalate (showDefault j ++ probes.map fun p => match check t p with | none => "ok" | some r => showRej r)
   -- the specification decides accept / reject; what a rejection must carry (the error-message / error-app-tag of the
   -- restriction the type gives for it, the path) is the model's account of it wherever both reject
   let s := match loadS ids (jobj j "type") with
     | none => "compile-err"
-    | some t => ";".intercalate (probes.map fun p =>
+    | some t =>
+      if (defaultsOf j).any fun d => !acceptsV t d then "compile-err"
+      else ";".intercalate (showDefault j ++ probes.map fun p =>
         if acceptsV t p then "ok"
         else match (loadM ids (jobj j "type")).bind fun mt => check mt p with
           | some r => showRej r
